@@ -1095,6 +1095,7 @@ mod srvlevel {
     enum Target {
         Tcp(std::net::SocketAddr),
         Uds(std::path::PathBuf),
+        UdsAbstract(Vec<u8>), // Linux abstract namespace: a unix socket without a path in the file system
     }
 
     trait Rw: tokio::io::AsyncRead + tokio::io::AsyncWrite + Unpin + Send {}
@@ -1109,6 +1110,13 @@ mod srvlevel {
                 Ok(Box::new(c))
             }
             Target::Uds(p) => Ok(Box::new(tokio::net::UnixStream::connect(p).await?)),
+            Target::UdsAbstract(name) => {
+                use std::os::linux::net::SocketAddrExt;
+                let a = std::os::unix::net::SocketAddr::from_abstract_name(name)?;
+                let c = std::os::unix::net::UnixStream::connect_addr(&a)?;
+                c.set_nonblocking(true)?;
+                Ok(Box::new(tokio::net::UnixStream::from_std(c)?))
+            }
         }
     }
 
@@ -1163,15 +1171,9 @@ mod srvlevel {
     enum Lst {
         Tcp,       // `listen` with a std TcpListener bound by the caller
         UdsBind,   // `bind_uds` with a path
+        UdsAbstract, // `listen_uds` with a std UnixListener bound by the caller to an abstract-namespace name (no path)
         UdsListen, // `listen_uds` with a std UnixListener bound by the caller, in the mode std gives it (blocking), as a
                    // socket-activation caller would hand it over
-    }
-
-    fn server(workers: usize, timeout: Option<u64>, signals: bool, served: Arc<AtomicUsize>, nonce: [u8; 8]) -> std::io::Result<(actix_server::Server, std::net::SocketAddr)> {
-        match server_on(Lst::Tcp, workers, timeout, signals, false, served, nonce)? {
-            (srv, Target::Tcp(a)) => Ok((srv, a)),
-            _ => unreachable!(),
-        }
     }
 
     fn server_on(lst: Lst, workers: usize, timeout: Option<u64>, signals: bool, sysexit: bool, served: Arc<AtomicUsize>, nonce: [u8; 8]) -> std::io::Result<(actix_server::Server, Target)> {
@@ -1213,6 +1215,20 @@ mod srvlevel {
                     })?
                     .run();
                 Ok((srv, Target::Uds(p)))
+            }
+            Lst::UdsAbstract => {
+                use std::os::linux::net::SocketAddrExt;
+                static SEQ: AtomicUsize = AtomicUsize::new(0);
+                let name = format!("vh-abs-{}-{}", std::process::id(), SEQ.fetch_add(1, Ordering::SeqCst)).into_bytes();
+                let a = std::os::unix::net::SocketAddr::from_abstract_name(&name)?;
+                let l = std::os::unix::net::UnixListener::bind_addr(&a)?;
+                let srv = b
+                    .listen_uds("verif", l, move || {
+                        let served = served.clone();
+                        fn_service(move |stream: actix_rt::net::UnixStream| serve_echo(stream, served.clone(), nonce))
+                    })?
+                    .run();
+                Ok((srv, Target::UdsAbstract(name)))
             }
             Lst::UdsListen => {
                 let p = uds_path();
@@ -1358,6 +1374,7 @@ mod srvlevel {
             None | Some("tcp") => Lst::Tcp,
             Some("uds") => Lst::UdsBind,
             Some("udsl") => Lst::UdsListen,
+            Some("udsa") => Lst::UdsAbstract,
             _ => return None,
         };
         let graceful = match kv(ws, "mode") {
@@ -1790,11 +1807,15 @@ mod srvlevel {
     }
 
     /// child process: a server with OS signals enabled; prints its port, exits when the server future resolves
-    pub fn sigchild(timeout: Option<u64>, plain_tokio: bool) {
+    pub fn sigchild(timeout: Option<u64>, plain_tokio: bool, abstract_uds: bool) {
         let served = Arc::new(AtomicUsize::new(0));
         let fut = async move {
-            let (srv, addr) = server(1, timeout, true, served, [0u8; 8]).expect("server");
-            println!("{}", addr.port());
+            let (srv, target) = server_on(if abstract_uds { Lst::UdsAbstract } else { Lst::Tcp }, 1, timeout, true, false, served, [0u8; 8]).expect("server");
+            match target {
+                Target::Tcp(addr) => println!("{}", addr.port()),
+                Target::UdsAbstract(name) => println!("{}", String::from_utf8_lossy(&name)),
+                Target::Uds(p) => println!("{}", p.display()),
+            }
             std::io::stdout().flush().unwrap();
             let _ = srv.await;
         };
@@ -1829,12 +1850,18 @@ mod srvlevel {
             Some("tokio") => true,
             _ => return (line.to_string(), "bad-op".into(), vec![]),
         };
+        // `lst=udsa`: the server process listens on a unix socket in the abstract namespace (no path)
+        let abstract_uds = match kv(&ws, "lst") {
+            None | Some("tcp") => false,
+            Some("udsa") => true,
+            _ => return (line.to_string(), "bad-op".into(), vec![]),
+        };
         let exe = match std::env::current_exe() {
             Ok(e) => e,
             Err(e) => return (line.to_string(), format!("setup-error {e}"), vec![]),
         };
         let mut child = match std::process::Command::new(exe)
-            .args(["sigchild", &timeout.map_or("default".to_string(), |t| t.to_string()), if plain_tokio { "tokio" } else { "system" }])
+            .args(["sigchild", &timeout.map_or("default".to_string(), |t| t.to_string()), if plain_tokio { "tokio" } else { "system" }, if abstract_uds { "udsa" } else { "tcp" }])
             .stdout(std::process::Stdio::piped())
             .stderr(std::process::Stdio::null())
             .spawn()
@@ -1853,24 +1880,33 @@ mod srvlevel {
                 port.push(b[0] as char);
             }
         }
-        let port: u16 = match port.trim().parse() {
-            Ok(p) => p,
-            Err(_) => {
-                let _ = child.kill();
-                return (format!("{line} skip=ports"), "skipped".into(), vec![]);
-            }
+        trait StdRw: Read + Write + Send {}
+        impl<T: Read + Write + Send> StdRw for T {}
+        let conn: Option<Box<dyn StdRw>> = if abstract_uds {
+            use std::os::linux::net::SocketAddrExt;
+            std::os::unix::net::SocketAddr::from_abstract_name(port.trim().as_bytes())
+                .and_then(|a| std::os::unix::net::UnixStream::connect_addr(&a))
+                .ok()
+                .filter(|_| port.trim().starts_with("vh-abs-"))
+                .map(|c| {
+                    let _ = c.set_read_timeout(Some(Duration::from_millis(1000)));
+                    Box::new(c) as Box<dyn StdRw>
+                })
+        } else {
+            port.trim().parse::<u16>().ok().and_then(|p| std::net::TcpStream::connect(("127.0.0.1", p)).ok()).map(|c| {
+                let _ = c.set_read_timeout(Some(Duration::from_millis(1000)));
+                Box::new(c) as Box<dyn StdRw>
+            })
         };
-        let mut c = match std::net::TcpStream::connect(("127.0.0.1", port)) {
-            Ok(c) => c,
-            Err(e) => {
+        let mut c = match conn {
+            Some(c) => c,
+            None => {
                 let _ = child.kill();
-                let _ = e;
                 return (format!("{line} skip=ports"), "skipped".into(), vec![]);
             }
         };
         let _ = c.write_all(&[9]);
         let mut b = [0u8; 1];
-        let _ = c.set_read_timeout(Some(Duration::from_millis(1000)));
         if c.read_exact(&mut b).is_err() {
             let _ = child.kill();
             return (line.to_string(), "setup-error echo".into(), vec![]);
@@ -1957,6 +1993,12 @@ mod srvlevel {
         created: AtomicUsize,
         polls: AtomicUsize,
         calls: std::sync::Mutex<Vec<(usize, usize)>>, // (instance, gate at the time of the call)
+        /// instances whose very FIRST readiness answer is Err (a replacement that is broken from the start)
+        fail_first: std::sync::Mutex<Vec<usize>>,
+        /// instances that have answered a readiness check with Err, in order
+        failed: std::sync::Mutex<Vec<usize>>,
+        /// calls that reached an instance after it had reported a readiness error
+        called_after_fail: std::sync::Mutex<Vec<usize>>,
     }
 
     impl GateShared {
@@ -1970,6 +2012,7 @@ mod srvlevel {
 
     struct GatedService {
         id: usize,
+        first: std::cell::Cell<bool>,
         shared: Arc<GateShared>,
     }
 
@@ -1980,6 +2023,10 @@ mod srvlevel {
 
         fn poll_ready(&self, cx: &mut std::task::Context<'_>) -> std::task::Poll<Result<(), ()>> {
             self.shared.polls.fetch_add(1, Ordering::SeqCst);
+            if self.first.replace(false) && self.shared.fail_first.lock().unwrap().contains(&self.id) {
+                self.shared.failed.lock().unwrap().push(self.id);
+                return std::task::Poll::Ready(Err(()));
+            }
             match self.shared.gate.load(Ordering::SeqCst) {
                 G_READY => std::task::Poll::Ready(Ok(())),
                 G_PENDING => {
@@ -1991,6 +2038,7 @@ mod srvlevel {
                 }
                 _ => {
                     // this instance is broken; its replacement is healthy
+                    self.shared.failed.lock().unwrap().push(self.id);
                     self.shared.gate.store(G_READY, Ordering::SeqCst);
                     std::task::Poll::Ready(Err(()))
                 }
@@ -2001,6 +2049,9 @@ mod srvlevel {
             use tokio::io::AsyncWriteExt;
             let gate = self.shared.gate.load(Ordering::SeqCst);
             self.shared.calls.lock().unwrap().push((self.id, gate));
+            if self.shared.failed.lock().unwrap().contains(&self.id) {
+                self.shared.called_after_fail.lock().unwrap().push(self.id);
+            }
             let id = self.id;
             Box::pin(async move {
                 let _ = io.write_all(&[b'0' + id as u8]).await;
@@ -2024,9 +2075,11 @@ mod srvlevel {
 
     fn run_gate(line: &str) -> (String, String, Vec<String>) {
         let ws: Vec<&str> = line.split_whitespace().collect();
-        let fail = match kv(&ws, "kind") {
-            Some("pending") => false,
-            Some("fail") => true,
+        // `kind=fail2`: the re-created instance fails as well — at its very first readiness check; the third one is healthy
+        let (fail, fail2) = match kv(&ws, "kind") {
+            Some("pending") => (false, false),
+            Some("fail") => (true, false),
+            Some("fail2") => (true, true),
             _ => return (line.to_string(), "bad-op".into(), vec![]),
         };
         // `stop=f|g` (kind=pending): the second connection is queued at the worker (its service is not ready) when the server is
@@ -2041,6 +2094,9 @@ mod srvlevel {
         let mut fails = vec![];
         let obs = rt.block_on(async {
             let shared = Arc::new(GateShared::default());
+            if fail2 {
+                shared.fail_first.lock().unwrap().push(2);
+            }
             let sh = shared.clone();
             let (handle, addr, srv_done) = match host_server(move || {
                 let lst = std::net::TcpListener::bind("127.0.0.1:0")?;
@@ -2054,7 +2110,7 @@ mod srvlevel {
                             let sh = sh.clone();
                             async move {
                                 let id = sh.created.fetch_add(1, Ordering::SeqCst) + 1;
-                                Ok::<_, ()>(GatedService { id, shared: sh })
+                                Ok::<_, ()>(GatedService { id, first: std::cell::Cell::new(true), shared: sh })
                             }
                         })
                     })?
@@ -2142,8 +2198,19 @@ mod srvlevel {
                     ));
                 }
             }
-            if fail && calls.len() >= 2 && calls[1].0 != 2 {
-                fails.push(format!("[C07] after a failed readiness check the next connection was served by instance {} instead of the re-created instance 2", calls[1].0));
+            let want = if fail2 { 3 } else { 2 };
+            if fail && calls.len() >= 2 && calls[1].0 != want {
+                fails.push(format!("[C07] after a failed readiness check the next connection was served by instance {} instead of the re-created instance {want}", calls[1].0));
+            }
+            // every readiness answer a service gives is the worker's to see: an instance that answered Err — its first answer
+            // included — is re-created before anything is handed to it
+            let caf = shared.called_after_fail.lock().unwrap().clone();
+            if !caf.is_empty() {
+                fails.push(format!(
+                    "[C07] a connection was handed to service instance {:?} after that instance had answered a readiness check with Err (instances that failed, in order: {:?}): a service whose readiness check fails is re-created, the failed instance is never called",
+                    caf,
+                    shared.failed.lock().unwrap()
+                ));
             }
             if a1.is_none() || a2.is_none() {
                 fails.push(format!("[C07] a connection was not served within 10-15 s although its service is ready (answers: {:?}, {:?})", a1, a2));
@@ -2153,7 +2220,8 @@ mod srvlevel {
                 G_PENDING => 'P',
                 _ => 'E',
             };
-            format!("calls={} answers={}{}", calls.iter().map(|(i, x)| format!("{i}{}", g(*x))).collect::<Vec<_>>().join(","), a1.map_or('-', |b| b as char), a2.map_or('-', |b| b as char))
+            let failed_obs = if fail2 { format!(" failed={}", shared.failed.lock().unwrap().iter().map(|x| x.to_string()).collect::<Vec<_>>().join(",")) } else { String::new() };
+            format!("calls={} answers={}{}{failed_obs}", calls.iter().map(|(i, x)| format!("{i}{}", g(*x))).collect::<Vec<_>>().join(","), a1.map_or('-', |b| b as char), a2.map_or('-', |b| b as char))
         });
         rt.shutdown_timeout(Duration::from_millis(200));
         if obs == "skipped" {
@@ -3636,6 +3704,7 @@ mod gen {
             writeln!(w, "case srvlevel n=1 timeout=0").unwrap();
             writeln!(w, "gate g0 kind=pending").unwrap();
             writeln!(w, "gate g1 kind=fail").unwrap();
+            writeln!(w, "gate g2 kind=fail2").unwrap();
             writeln!(w, "gate gs kind=pending stop=f").unwrap();
             writeln!(w, "fault f0").unwrap();
             writeln!(w, "gate bad kind=x").unwrap();
@@ -3702,6 +3771,10 @@ mod gen {
             srv(&mut *w, "workers=1 timeout=1 mode=g holds=300 lst=udsl");
             srv(&mut *w, "workers=1 timeout=5 mode=f holds=n lst=udsl");
             srv(&mut *w, "workers=2 timeout=2 mode=g holds=300,n lst=uds second=g gap2=300");
+            // … and a unix listener without a path (Linux abstract namespace): served, then stopped, gracefully and by force
+            srv(&mut *w, "workers=1 timeout=1 mode=g holds=300 lst=udsa");
+            srv(&mut *w, "workers=2 timeout=5 mode=f holds=n lst=udsa");
+            writeln!(w, "sig a0 sig=term timeout=1 hold=300 lst=udsa").unwrap();
             // one more stop() after the shutdown is over (the Server future has resolved): resolves at once
             srv(&mut *w, "workers=1 timeout=1 mode=g holds=300 late=f");
             srv(&mut *w, "workers=2 timeout=5 mode=f holds=n late=g second=g");
@@ -3720,7 +3793,7 @@ mod gen {
                     }
                 }
                 srv(&mut *w, "workers=2 timeout=default mode=g holds=300,3500 second=g gap2=1000");
-                for lst in ["uds", "udsl"] {
+                for lst in ["uds", "udsl", "udsa"] {
                     for (mode, holds) in [("g", "-"), ("g", "300"), ("g", "n"), ("f", "n"), ("f", "300,n"), ("g", "1300,300")] {
                         for extra in ["", "second=f gap2=200", "late=g", "paused=1"] {
                             srv(&mut *w, &format!("workers=2 timeout=2 mode={mode} holds={holds} lst={lst} {extra}"));
@@ -3781,6 +3854,7 @@ fn main() {
                 t => Some(t.and_then(|t| t.parse().ok()).unwrap_or(1)),
             },
             argv.get(3).map(|s| s.as_str()) == Some("tokio"),
+            argv.get(4).map(|s| s.as_str()) == Some("udsa"),
         );
         return;
     }
